@@ -298,6 +298,11 @@ func RunMain(propID, tier string) int {
 	}
 	wg.Wait()
 
+	type digestRec struct {
+		val   string
+		batch int
+	}
+	digests := map[string]digestRec{}
 	shapes := map[uint64]struct{}{}
 	var evals int64
 	var samples []any
@@ -351,7 +356,17 @@ func RunMain(propID, tier string) int {
 			}
 		}
 		unmatched = append(unmatched, o.res.Violations...)
+		for k, v := range o.res.Digests {
+			if prev, ok := digests[k]; ok && prev.val != v {
+				jb, _ := json.Marshal(map[string]any{"digest_key": k, "batch_a": prev.batch, "batch_b": b})
+				unmatched = append(unmatched, Violation{Prop: propID, Kind: "cross-process-diff", Sig: "cross-process-diff:" + k, Input: jb, Batch: b,
+					Detail: fmt.Sprintf("processes with different histories produced different results for %q: batch %d -> %s, batch %d -> %s", k, prev.batch, prev.val, b, v)})
+			} else if !ok {
+				digests[k] = digestRec{v, b}
+			}
+		}
 	}
+	counters["cross_process_digests"] = int64(len(digests))
 
 	// 4. match violations against open findings.
 	var real []Violation
@@ -418,6 +433,26 @@ func RunMain(propID, tier string) int {
 	}
 	for id, n := range knownSeen {
 		fmt.Printf("note: %d violation(s) matched known finding %s\n", n, id)
+	}
+	{ // histogram of signatures of this run (debugging aid, not evidence)
+		hist := map[string]int{}
+		ex := map[string]string{}
+		for _, v := range real {
+			hist[v.Sig]++
+			if _, ok := ex[v.Sig]; !ok {
+				ex[v.Sig] = string(v.Input) + "  ## " + strings.ReplaceAll(tail(v.Detail, 300), "\n", " ")
+			}
+		}
+		var sb2 strings.Builder
+		sk := make([]string, 0, len(hist))
+		for k := range hist {
+			sk = append(sk, k)
+		}
+		sort.Strings(sk)
+		for _, k := range sk {
+			fmt.Fprintf(&sb2, "%6d %s\n        %s\n", hist[k], k, ex[k])
+		}
+		_ = os.WriteFile(filepath.Join(root, ".build", "last-"+propID+".sigs"), []byte(sb2.String()), 0o644)
 	}
 	if len(real) > 0 {
 		printed := map[string]bool{}
